@@ -32,7 +32,7 @@ def kv(ans):
 
 def main():
     ck = Check("C04", "proof")
-    ck.lean_stage(["VelaVerif.Props.C04"])
+    ck.lean_stage(["VelaVerif.Props.C04", "VelaVerif.Props.C04Src"])
     common.setup_repo_path()
     from ethosu.vela import api, range_set
     from ethosu.vela import register_command_stream_util as rcsu
